@@ -412,6 +412,7 @@ pub fn run(tier: Tier) -> i32 {
         .par_iter()
         .fold(Census::new, |mut cen, d| {
             let forms: &[KeyForm] = match d {
+                D::Sh(crate::ast::T::Multi(..)) | D::Sh(crate::ast::T::SortedMulti(..)) | D::Bare(crate::ast::T::SortedMulti(..)) => &[KeyForm::Compressed, KeyForm::Uncompressed, KeyForm::Mixed, KeyForm::MixedAlt],
                 D::Sh(t) if t.size() <= 3 => &[KeyForm::Compressed, KeyForm::Uncompressed],
                 D::Bare(_) | D::Pkh(_) => &[KeyForm::Compressed, KeyForm::Uncompressed],
                 _ => &[KeyForm::Compressed],
